@@ -91,9 +91,12 @@ void SNAP::write_serialization(uint8_t* buffer, uint32_t total_sz) {
     OutputMemoryStream stream(buffer, total_sz);
     if (inner_pdu()) {
         Constants::Ethernet::e flag = Internals::pdu_to_ether_type(*inner_pdu());
-        snap_.eth_type = Endian::host_to_be(
-            static_cast<uint16_t>(flag)
-        );
+        // Only overwrite the type if the inner PDU maps to a known one
+        if (flag != Constants::Ethernet::UNKNOWN) {
+            snap_.eth_type = Endian::host_to_be(
+                static_cast<uint16_t>(flag)
+            );
+        }
     }
     stream.write(snap_);
 }
